@@ -377,6 +377,14 @@ impl TcpStream {
     // ---- harness-only helpers (never called from /repo)
 
     /// Abort the connection: both ends see ECONNRESET, data in flight is discarded.
+    /// harness-only: the next close of this end is an abort that follows the data already written (see `Pipe::fin_is_rst`)
+    pub fn abort_after_data(&self) {
+        world::with(|w| {
+            let wr = if self.side == 0 { 0 } else { 1 };
+            w.conns[self.cid].pipes[wr].fin_is_rst = true;
+        });
+    }
+
     pub fn reset(&self) {
         world::with(|w| reset_conn(w, self.cid));
     }
@@ -531,6 +539,13 @@ fn poll_read_impl(cid: usize, side: u8, cx: &mut Context<'_>, buf: &mut ReadBuf<
             if p.inflight.is_empty() {
                 if let Some(fin) = p.fin_at {
                     if fin <= now {
+                        if p.fin_is_rst {
+                            // everything the aborting peer had sent has been read: now its RST is seen
+                            c.reset = true;
+                            w.stats.tcp_resets += 1;
+                            w.log(9, (cid as u64) << 1 | side as u64, 2);
+                            return Poll::Ready(Err(io::Error::new(io::ErrorKind::ConnectionReset, "Connection reset by peer")));
+                        }
                         if !peek {
                             log::trace!("sim eof cid={cid} side={side}");
                             w.log(6, (cid as u64) << 1 | side as u64, 0);
@@ -792,6 +807,14 @@ impl UdpSocket {
             w.stats.udp_sent += 1;
             if let Some(cap) = w.udp_capture.as_mut() {
                 cap.push((from, dst, buf.to_vec()));
+            }
+            if !w.udp_hold_ports.is_empty() && (w.udp_hold_ports.contains(&dst.port()) || w.udp_hold_ports.contains(&from.port())) {
+                // parked by the in-path attacker; what becomes of it is the harness's decision
+                rec.fate = 5;
+                w.udp_sends.push(rec);
+                w.udp_held.push((from, dst, buf.to_vec()));
+                w.log(17, self.sid as u64, buf.len() as u64);
+                return Ok(buf.len());
             }
             let Some(did) = w.find_udp(&dst) else {
                 rec.fate = 2;
